@@ -44,8 +44,9 @@ def gv_body(rng):
             names.append((list(rng.choice(VAR_NAMES).lower()), []))
         elif r < 0.78:
             # names that are NOT variable names although a lenient textual parser would read one (or several) into them
-            names.append((list(rng.choice([b" FCGI_MAX_CONNS", b"FCGI_MAX_REQS\n", b"FCGI_MAX_CONNS|FCGI_MAX_REQS", b"FCGI_MPXS_CONNS | FCGI_MAX_REQS",
-                                           b"0x7", b"0xff", b"0x1", b"FCGI_MAX_CONNS ", b"\tFCGI_MPXS_CONNS", b"", b"|", b"FCGI_MAX_CONNS,FCGI_MAX_REQS"])), []))
+            # (all at most 19 bytes long, like the random names below: callers with 24-byte buffers rely on GetValues pairs that fit)
+            names.append((list(rng.choice([b" FCGI_MAX_CONNS", b"FCGI_MAX_REQS\n", b"FCGI_MAX_REQS |", b"| FCGI_MAX_REQS",
+                                           b"0x7", b"0xff", b"0x1", b"FCGI_MAX_CONNS ", b"\tFCGI_MPXS_CONNS", b"", b"|", b" 0x2 | 0x4 "])), []))
         elif r < 0.85:
             names.append(([rng.randrange(256) for _ in range(rng.randrange(0, 20))], []))
         else:
